@@ -104,13 +104,17 @@ PROPS = {
         "level_text": ("Theorems (Props/C02.v, axiom-free) over the engine model: the reply has exactly one of the three legal shapes; any error result means the database "
                        "is unchanged; a later transaction behaves as if the failed one had never been submitted; the transaction commits iff no result is an error. What "
                        "makes this hold or fail in Go is aliasing between the transaction's scratch state and the committed state, which a pure model cannot express: "
-                       "that half is the correspondence check - the whole database and the reference index are read before and after every (45% failing) transaction."),
+                       "that half is the correspondence check - the whole database and the reference index are read before and after every (45% failing) transaction. "
+                       "The request level is modelled too (server_transact, Db/Request.v): a transact request one argument of which cannot be decoded has results up to one "
+                       "error at or before that argument - the syntax error when every operation before it succeeded, never the verdict of the end-of-transaction checks - "
+                       "and commits nothing; tied to server.Transact by requests with garbage at every position."),
         "level_note": ("Trusted: Coq kernel + vm_compute, std++; Go harness. Monitors are not part of this check (C07 covers notifications). The database's internal indexes "
                        "are observed through the follow-up transactions of the same history, not directly."),
         "rule": ("histories of 1..6 transactions of 1..5 operations on a schema with strong/weak references (min 1), unique indexes and an immutable column; 45% of the "
                  "transactions contain a failing operation (unsupported op, ill-typed value, rejected mutation, timed-out wait, duplicate uuid, immutable column) at a "
-                 "random position, 12% of references dangle. Non-trivial: the failing operation is not the first and an earlier one changed a row."),
-        "tags": {1: "operation results", 2: "database contents after the transaction", 3: "reference index (GetReferences)"},
+                 "random position, 12% of references dangle; 30 (thorough 600) requests through OvsdbServer.Transact with an undecodable argument at a random position "
+                 "(after two colliding inserts / a dangling strong reference in two of five). Non-trivial: the failing operation is not the first and an earlier one changed a row."),
+        "tags": {1: "operation results", 2: "database contents after the transaction", 3: "reference index (GetReferences)", 8: "reply to a request with an undecodable operation"},
         "assumptions": [],
     },
     "C06": {
